@@ -706,6 +706,7 @@ type c08Gen struct {
 	pods  map[string]*c08GPod
 	names []string
 	hasM  map[string]bool
+	lastM map[string]*c08Op // the last metric object delivered per node
 	ops   []*c08Op
 }
 
@@ -888,6 +889,17 @@ func (g *c08Gen) usage() c08Vec {
 }
 
 func (g *c08Gen) metricOp(node string) {
+	if l := g.lastM[node]; l != nil && g.hasM[node] && g.rng.Intn(6) == 0 {
+		// a spec-only update of the NodeMetric (koord-manager changes the collect policy, koordlet has not reported
+		// again): the same status with another report interval
+		o := *l
+		for o.Ri == l.Ri {
+			o.Ri = g.pick(-1, 0, 1, 5, 30, 60, 120, 300)
+		}
+		g.lastM[node] = &o
+		g.emit(&o)
+		return
+	}
 	// report times on both sides of (assign time + report interval) and of the estimation deadlines (5 / 30 / 600 s windows)
 	ut := g.relTime()
 	if g.rng.Intn(3) == 0 {
@@ -919,6 +931,10 @@ func (g *c08Gen) metricOp(node string) {
 		}
 	}
 	g.hasM[node] = true
+	if g.lastM == nil {
+		g.lastM = map[string]*c08Op{}
+	}
+	g.lastM[node] = o
 	g.emit(o)
 }
 
